@@ -182,7 +182,18 @@ def worker(args):
     if len(rule_line) != nrules:
         out["skipped"] = "cannot map rule lines"
         return out
-    b = runner.build_scanner(flex, case, fl, wd, (), "san", None, spec_text=spec_text)
+    # the warnings come out of the subset construction, which runs differently for the full and
+    # fast representations (no end-of-buffer state for -CF, NUL handling): rotate them
+    tb = ["", "-Cem", "-CF", "-Cf", "-C", "-CFe", "-Cfe", "-Ca"][(i // 3) % 8]
+    targs = lib.tables_args(tb, 8)
+    b = runner.build_scanner(flex, case, fl, wd, targs, "san", None, spec_text=spec_text)
+    if not b.ok and b.stage == "flex" and targs and ("cannot be used with -f or -F" in b.warnings or
+                                                      "variable trailing context rules cannot be used" in b.warnings):
+        # documented refusal (REJECT / variable trailing context with full tables)
+        feat("tables_refused_fallback")
+        tb, targs = "", ()
+        b = runner.build_scanner(flex, case, fl, wd, targs, "san", None, spec_text=spec_text)
+    feat("tables:" + (tb or "default"))
     if not b.ok:
         if b.stage == "flex" and b.flex.timed_out:
             out["skipped"] = "flex watchdog"
@@ -326,7 +337,7 @@ def worker(args):
     # -w must not change the generated scanner
     if i % 4 == 0:
         o2 = os.path.join(wd, "w.c")
-        cmd, r = runner.flex_generate(flex, b.spec, o2, ("-w",), cwd=wd)
+        cmd, r = runner.flex_generate(flex, b.spec, o2, tuple(targs) + ("-w",), cwd=wd)
         o1 = os.path.join(wd, "s.c")
         if r.rc != 0:
             out["problems"].append(("-w", "flex -w failed: %s" % r.err[-300:], b, None))
